@@ -20,7 +20,9 @@ EXPLANATION = (
     'amount used with the per-client masks and the subscript of the service table are the same variable; '
     '(GRD.1) per-client module records come only from a lookup in the request\'s own data set with the '
     'module descriptor as key (or from the allocation inserted there); (MPT.1) the reader reassigns its '
-    'request variable on every path of every iteration before any dispatch; (ARITH.1) the producer of a '
+    'request variable on every path of every iteration before any dispatch; (WMC.4) the shared per-service '
+    'reference count moves by ++/-- only and is taken/released together with a client\'s awaited bit, so '
+    'one client\'s reply cannot free a service another client awaits; (ARITH.1) the producer of a '
     'slot index is bounded by the mask width.  Projection equality of outputs is not decided.')
 ASSUMPTIONS = ['clang 14 CFG and may-call graph with slot resolution', 'heap objects reached through a request pointer belong to that request']
 
@@ -274,5 +276,6 @@ def run(P, R, tier):
     index_consistency(P, R)
     keyed_state(P, R)
     junk_inert(P, R, 'C07.MPT.1')
+    holds.refs_discipline(P, R, 'C07.WMC.4')
     mask_width(P, R)
     return EXPLANATION, ASSUMPTIONS
